@@ -8,7 +8,7 @@
    nested roots) must equal the value tree that drove the script; the extracted independent decoder must return the same
    tree; an object used several times in the script must be stored once (every use reads the same address).
 """
-import json
+import json, os
 from . import lib
 from . import builder_util as bu
 from .builder_engine import Engine
@@ -16,6 +16,8 @@ from .builder_engine import Engine
 
 def run(ctx):
     ok = ctx.check_theorems()
+    if os.path.exists(os.path.join(lib.COQ, 'Properties', 'Properties_C02c.v')):     # C03_build_decode for union vectors / nested levels
+        ok = ctx.check_theorems(prop_module='Properties_C02c') and ok
     if not ok:
         ctx.broken_obligation('Properties_C03.vo', getattr(ctx, 'broken', {}))
     E = Engine(ctx, with_gen_api=True)
